@@ -27,6 +27,11 @@ type scaseT struct {
 	// Batch: the goroutines log through one logging.BatchLogger (small batch size, 1 ms ticker) and the
 	// main goroutine also calls its Flush; at the end it is closed before the final FlushBuffer
 	Batch bool `json:",omitempty"`
+	// CloseRace (with Batch): instead of the StartBuffering / FlushBuffer cycles the main goroutine runs many
+	// short trials — a fresh BatchLogger, the goroutines log through it flat out, Close is called WHILE they
+	// are logging, they go on a little longer, are parked (every call has returned), Flush writes out what
+	// was added after Close — and the per-goroutine order of the whole output is judged as always
+	CloseRace bool `json:",omitempty"`
 	// Volume > 0: no concurrency at all — StartBuffering, Volume records from one goroutine, FlushBuffer
 	// (a start-up that logs a lot before the banner)
 	Volume int  `json:",omitempty"`
@@ -115,6 +120,9 @@ func runStress(k scaseT) (logged []int, runs [][]runT, cycles int) {
 		out.mu.Unlock()
 		return []int{k.Volume}, [][]runT{runsOf(seqsOf(data, 1)[0])}, 1
 	}
+	if k.Batch && k.CloseRace {
+		return runCloseRace(k, r, l, out)
+	}
 	var bl *logging.BatchLogger
 	if k.Batch {
 		bl = logging.NewBatchLogger(l, 2+r.Intn(6), time.Millisecond)
@@ -192,6 +200,76 @@ func runStress(k scaseT) (logged []int, runs [][]runT, cycles int) {
 	return logged, runs, cycles
 }
 
+func spinFor(d time.Duration) {
+	for t0 := time.Now(); time.Since(t0) < d; {
+	}
+}
+
+// runCloseRace: see scaseT.CloseRace. Correct code keeps every goroutine's records in order: before Close they
+// go through the batch under its mutex, Close flushes under the same mutex, later ones join the batch again.
+func runCloseRace(k scaseT, r *hx.Rand, l *logging.Logger, out *lockedBuf) (logged []int, runs [][]runT, cycles int) {
+	var cur atomic.Pointer[logging.BatchLogger]
+	var stop, pause atomic.Bool
+	var parked atomic.Int64
+	counts := make([]atomic.Int64, k.G)
+	pause.Store(true)
+	var wg sync.WaitGroup
+	for g := 0; g < k.G; g++ {
+		wg.Add(1)
+		go func(g int) {
+			defer wg.Done()
+			c := &logT{Lvl: 2}
+			n := 0
+			for !stop.Load() && n < 400000 {
+				if pause.Load() {
+					parked.Add(1)
+					for pause.Load() && !stop.Load() {
+						spinFor(time.Microsecond)
+					}
+					parked.Add(-1)
+					continue
+				}
+				c.Seq = n
+				cur.Load().Warn(msgOf(g, c))
+				n++
+				counts[g].Store(int64(n))
+			}
+		}(g)
+	}
+	waitParked := func(want int64) {
+		for t0 := time.Now(); parked.Load() != want && time.Since(t0) < 2*time.Second; {
+			spinFor(time.Microsecond)
+		}
+	}
+	deadline := time.Now().Add(time.Duration(k.Millis) * time.Millisecond)
+	for time.Now().Before(deadline) {
+		cycles++
+		waitParked(int64(k.G))
+		bl := logging.NewBatchLogger(l, 8+r.Intn(120), time.Millisecond)
+		cur.Store(bl)
+		pause.Store(false)
+		spinFor(time.Duration(20+r.Intn(200)) * time.Microsecond)
+		bl.Close() // while the goroutines are logging
+		spinFor(time.Duration(10+r.Intn(60)) * time.Microsecond)
+		pause.Store(true)
+		waitParked(int64(k.G))
+		bl.Flush() // what was added after Close
+	}
+	stop.Store(true)
+	wg.Wait()
+	_ = l.FlushBuffer()
+	_ = l.Shutdown(context.Background())
+	out.mu.Lock()
+	data := append([]byte(nil), out.b.Bytes()...)
+	out.mu.Unlock()
+	per := seqsOf(data, k.G)
+	for g := 0; g < k.G; g++ {
+		logged = append(logged, int(counts[g].Load()))
+		runs = append(runs, runsOf(per[g]))
+	}
+	return logged, runs, cycles
+}
+
 // case line: <id> Z <G> <logged_g…> => R <G> (<n> (<start> <len>)…)…
 func emitStress(id string, k scaseT, st *hx.Stats) string {
 	logged, runs, cycles := runStress(k)
@@ -223,6 +301,10 @@ func emitStress(id string, k scaseT, st *hx.Stats) string {
 		}
 		if k.Batch {
 			st.Count("stress_through_batchlogger")
+		}
+		if k.Batch && k.CloseRace {
+			st.Count("stress_batch_close_while_logging")
+			st.Counters["stress_close_trials"] += cycles
 		}
 		if k.Volume > 0 {
 			st.Count("stress_volume")
